@@ -8,9 +8,13 @@ import glob, json, os, re, subprocess, sys, threading, queue, shutil
 V = "/verif"
 args = sys.argv[1:]
 N = 4
+KIND, WANT = "seeded", 1          # a seeded change is expected to be reported (exit 1)
+if args[:1] == ["--refactors"]:   # a behaviour-preserving refactoring is expected to leave the check silent (exit 0)
+    KIND, WANT = "refactors", 0
+    args = args[1:]
 if args[:1] == ["-j"]:
     N = int(args[1]); args = args[2:]
-names = sorted(os.path.basename(os.path.dirname(p)) for p in glob.glob(V + "/seeded/*/patch.diff"))
+names = sorted(os.path.basename(os.path.dirname(p)) for p in glob.glob(V + "/%s/*/patch.diff" % KIND))
 if args:
     names = [n for n in names if any(n.startswith(a) for a in args)]
 
@@ -45,13 +49,13 @@ def worker(k):
             name = q.get_nowait()
         except queue.Empty:
             return
-        mp = "%s/seeded/%s/meta.json" % (V, name)
+        mp = "%s/%s/%s/meta.json" % (V, KIND, name)
         meta = json.load(open(mp))
         pid = meta["property"]
         wt = "/tmp/reseed_%s" % name
         sh("git -C /repo worktree remove --force %s" % wt)
         rc, out = sh("git -C /repo worktree add -q --detach %s HEAD" % wt)
-        rc, out = sh("git apply %s/seeded/%s/patch.diff" % (V, name), cwd=wt)
+        rc, out = sh("git apply %s/%s/%s/patch.diff" % (V, KIND, name), cwd=wt)
         if rc != 0:
             with lock:
                 print("%-10s PATCH DOES NOT APPLY" % name); results[name] = "noapply"
@@ -72,16 +76,16 @@ def worker(k):
         sh("rm -f %s/replays/*.json" % C)
         new = {"exit": rc, "violation_lines": lines[:5], "replays": replays, "summary": o.strip().split("\n")[-1][:300]}
         old = meta.get("check_quick")
-        if old and old.get("exit") != 1 and "check_quick_first" not in meta:
+        if old and old.get("exit") != WANT and "check_quick_first" not in meta:
             meta["check_quick_first"] = old
         meta["check_quick"] = new
         json.dump(meta, open(mp, "w"), indent=1)
         with lock:
             results[name] = rc
-            print("%-10s %s exit %d (%d violation lines)%s" % (name, pid, rc, len(lines), "" if rc == 1 else "   <<<<<< NOT CAUGHT"), flush=True)
+            print("%-10s %s exit %d (%d violation lines)%s" % (name, pid, rc, len(lines), "" if rc == WANT else "   <<<<<< UNEXPECTED"), flush=True)
 
 ts = [threading.Thread(target=worker, args=(k,)) for k in range(N)]
 for t in ts: t.start()
 for t in ts: t.join()
-bad = [n for n, r in results.items() if r != 1]
-print("%d seeded changes re-run, %d not caught: %s" % (len(results), len(bad), " ".join(sorted(bad))))
+bad = [n for n, r in results.items() if r != WANT]
+print("%d %s re-run, %d with an unexpected outcome: %s" % (len(results), KIND, len(bad), " ".join(sorted(bad))))
